@@ -18,7 +18,7 @@ def sh(cmd, **kw):
 
 
 def clean_repo():
-    r = sh(["git", "-C", REPO, "status", "--porcelain", "--untracked-files=no"])
+    r = sh(["git", "-C", REPO, "status", "--porcelain"])
     return r.stdout.strip() == ""
 
 
@@ -65,8 +65,9 @@ def run_one(sid, checks, tier):
         for p in after - before:
             shutil.move(p, os.path.join(dest, os.path.basename(p)))
     finally:
+        sh(["git", "-C", REPO, "apply", "-R", patch])
         sh(["git", "-C", REPO, "checkout", "--", "."])
-        assert clean_repo()
+        assert clean_repo(), "/repo is not clean after undoing the patch"
         if os.path.isdir(ev_bak):
             shutil.rmtree(ev, ignore_errors=True)
             shutil.copytree(ev_bak, ev)
